@@ -3,8 +3,36 @@
    the file written by the real run. *)
 From Coq Require Import List NArith ZArith Bool String Ascii PrimFloat.
 From T4V Require Import Base.Str Base.Cases C08.Model.
+From Coq Require Import Uint63.
 Import ListNotations.
 Open Scope string_scope.
+
+(* ---- compact string literals for the generated files: 9 ASCII characters per
+   primitive integer, 7 bits each, first character in the low bits (elaborating
+   "..." literals costs ~65 us per character, an int63 literal is one node) ---- *)
+Fixpoint unpack (fuel : nat) (i : int) (tail : string) : string :=
+  match fuel with
+  | O => tail
+  | S f =>
+      let c := (i land 127)%uint63 in
+      if (c =? 0)%uint63 then tail
+      else String (ascii_of_N (Z.to_N (Uint63.to_Z c))) (unpack f (i >> 7)%uint63 tail)
+  end.
+
+Definition U (l : list int) : string := fold_right (unpack 9) "" l.
+
+(* mirrors harness/c08_capture.pack (the harness checks its packer against the
+   same samples before using it) *)
+Example U_selftest :
+  U [] = "" /\ U [97]%uint63 = "a" /\ U [31768959712549169]%uint63 = "12345678" /\
+  U [4139051819874441521]%uint63 = "123456789" /\ U [4139051819874441521; 48]%uint63 = "1234567890" /\
+  U [4990218777941714902; 6028976627815312081; 5019607349286410400; 4990436399355795616;
+     3553482471076373070; 11109144112]%uint63 = "VOLU 14 EQUA MINUS 1 1 INTE 1 None ENDV // (10, 1)" /\
+  U [2904427216515928224; 3558052006529258793; 4211676796542589362; 4865301586555919931;
+     5518926376569250500; 6172551166582581069; 6826175956595911638; 7479800746609242207;
+     8133425536622572776; 8787050326635903345; 34087058938]%uint63
+  = " !""#$%&'()*+,-./0123456789:;<=>?@ABCDEFGHIJKLMNOPQRSTUVWXYZ[\]^_`abcdefghijklmnopqrstuvwxyz{|}~".
+Proof. vm_compute. repeat split. Qed.
 
 (* SurfaceT4.__eq__: type, parameters (numeric ==), transform (numpy ==) *)
 Definition payload := (string * list float * option (list float))%type.
